@@ -176,13 +176,12 @@ Theorem C05_discr_history : forall field vs inputs,
 Proof. intros field vs inputs. apply discr_history_spec. apply reg_inv_nil. Qed.
 Print Assumptions C05_discr_history.
 
-(* the chosen variant's own outcome -- MissingField, InvalidFieldValue, ExtraKeysError, an instance --
-   propagates unchanged on the first call for a tag (register-and-retry path) and on every later call;
-   only a KeyError raised by the variant itself (user code) is turned into SuitableVariantNotFoundError *)
+(* the chosen variant's own outcome -- an instance, MissingField, InvalidFieldValue, ExtraKeysError, and since
+   fix 2eac3a7 also a KeyError / AttributeError raised by the variant itself -- propagates unchanged on the first
+   call for a tag (register-and-look-up-again path) and on every later call: only the LOOKUP is guarded *)
 Theorem C05_discr_variant_outcome_propagates : forall field vs reg kvs s dec,
   reg_inv vs reg ->
   d_lookup kvs (VStr field) = Some (VStr s) -> owner vs s = Some dec ->
-  dec (VDict kvs) <> Exn XKeyError ->
   fst (discr_call field vs reg (VDict kvs)) = dec (VDict kvs).
 Proof. exact discr_variant_outcome_propagates. Qed.
 Print Assumptions C05_discr_variant_outcome_propagates.
@@ -196,6 +195,11 @@ Example C05_ex_first_call_missing_field :
      VDict [(VStr "kind", VStr "click"); (VStr "x", VInt 1)];
      VDict [(VStr "kind", VStr "nope")]]
   = [Exn (XMissingField "y" "Click"); Exn (XMissingField "y" "Click"); Exn XNoVariant].
+Proof. reflexivity. Qed.
+(* a KeyError raised by the variant's own from_dict (a user hook) is not an unknown tag *)
+Example C05_ex_variant_keyerror :
+  discr_history "kind" [(Some "k", fun _ => Exn XKeyError)] []
+    [VDict [(VStr "kind", VStr "k")]; VDict [(VStr "kind", VStr "k")]] = [Exn XKeyError; Exn XKeyError].
 Proof. reflexivity. Qed.
 
 (* ---------------------------------------------------------------- non-vacuity *)
